@@ -720,3 +720,127 @@ mod tests {
 		}
 	}
 }
+
+// ---------------------------------------------------------------------------
+// C08: compact preset, one container level, and scalar rendering
+// (Display / compact_print / print_with agree; options never reach scalars)
+
+macro_rules! c08_compact_level {
+	($name:ident, $object:expr, $k:expr) => {
+		#[cfg(kani)]
+		#[kani::proof]
+		#[kani::unwind(6)]
+		fn $name() {
+			const K: usize = $k;
+			let o = Options::compact();
+			let children: [Child; 4] = core::array::from_fn(|_| sym_child());
+			let keys: [char; 4] = core::array::from_fn(|_| kani::any());
+			let mut bufs = [[0u8; 4]; 4];
+			let mut strs: [&str; 4] = [""; 4];
+			let mut i = 0;
+			for b in bufs.iter_mut() {
+				strs[i] = keys[i].encode_utf8(b);
+				i += 1;
+			}
+			let sizes = [Size::Width(kani::any()), Size::Expanded, Size::Expanded, Size::Expanded];
+			let end = Cell::new(0);
+			let mut got = Sink::<6>::new();
+			if $object {
+				write!(got, "{}", PrintedObject::<K> { keys: &strs, children: &children, options: &o, indent: any_le(2), sizes: &sizes, start: 0, end: &end }).unwrap();
+			} else {
+				write!(got, "{}", PrintedArray::<K> { children: &children, options: &o, indent: any_le(2), sizes: &sizes, start: 0, end: &end }).unwrap();
+			}
+			// the minimal serialization: brackets, children joined by ',', keys followed by ':'
+			let mut want = Sink::<6>::new();
+			want.push(if $object { b'{' } else { b'[' });
+			let mut i = 0;
+			while i < K {
+				if i > 0 {
+					want.push(b',');
+				}
+				if $object {
+					want.push(b'"');
+					ref_escape(keys[i], &mut want);
+					want.push(b'"');
+					want.push(b':');
+				}
+				want.push(children[i].byte);
+				i += 1;
+			}
+			want.push(if $object { b'}' } else { b']' });
+			assert!(got.same_as(&want), "C08:compact-container-has-only-brackets-commas-colons");
+			// the compact preset cannot expand a container whose children are not expanded
+			let items: [Item; 4] = core::array::from_fn(|i| Item { size: Size::Width(any_le(64)), pushes: (i + 1) % 3 });
+			let mut sz: Vec<Size> = Vec::with_capacity(12);
+			let idx: [usize; 4] = [0, 1, 2, 3];
+			let s = if $object {
+				pre_compute_object_size(idx[..K].iter().map(|i| (strs[*i], &items[*i])), &o, &mut sz)
+			} else {
+				pre_compute_array_size(items[..K].iter(), &o, &mut sz)
+			};
+			assert!(width_of(s).is_some(), "C08:compact-preset-never-expands");
+			kani::cover!(K == 0 || children[0].byte == b'7');
+			core::mem::forget(sz);
+		}
+	};
+}
+
+c08_compact_level!(c08_compact_array_k0, false, 0);
+c08_compact_level!(c08_compact_array_k2, false, 2);
+c08_compact_level!(c08_compact_object_k0, true, 0);
+c08_compact_level!(c08_compact_object_k2, true, 2);
+
+pub const SPELLINGS: [&[u8]; 8] = [b"0", b"-0", b"1", b"-12", b"1.50", b"1E+2", b"0e-1", b"100000000000001"];
+
+/// Scalars print as their token under every option record and through every
+/// printing entry point (`Display`, `compact_print`, `print_with`).
+#[cfg(kani)]
+#[kani::proof]
+#[kani::unwind(17)]
+#[kani::stub(smallvec::SmallVec::try_grow, crate::util::no_grow)]
+fn c08_scalars_print_as_their_token() {
+	use json_syntax::{NumberBuf, Print, Value};
+	let t: u8 = kani::any();
+	let c: char = kani::any();
+	let k: usize = kani::any();
+	kani::assume(k < 8);
+	let mut want = Sink::<3>::new();
+	let v = match t {
+		0 => {
+			want.push_all(b"null");
+			Value::Null
+		}
+		1 => {
+			let b: bool = kani::any();
+			want.push_all(if b { b"true" } else { b"false" });
+			Value::Boolean(b)
+		}
+		2 => {
+			want.push_all(SPELLINGS[k]);
+			Value::Number(unsafe { NumberBuf::new_unchecked(smallvec::SmallVec::from_slice(SPELLINGS[k])) })
+		}
+		_ => {
+			ref_string_literal(&[c], &mut want);
+			let mut s = json_syntax::String::new();
+			s.push(c);
+			Value::String(s)
+		}
+	};
+	let mut d = Sink::<3>::new();
+	write!(d, "{}", v).unwrap();
+	assert!(d.same_as(&want), "C08:display-is-the-compact-token");
+	let mut p = Sink::<3>::new();
+	write!(p, "{}", v.compact_print()).unwrap();
+	assert!(p.same_as(&want), "C08:compact-print-is-the-compact-token");
+	let mut q = Sink::<3>::new();
+	write!(q, "{}", v.print_with(sym_options(3, 3, 24))).unwrap();
+	assert!(q.same_as(&want), "C13:options-never-reach-scalars");
+	let mut sizes = Vec::new();
+	let s = v.pre_compute_size(&sym_options(3, 3, 24), &mut sizes);
+	assert!(width_of(s) == Some(if t >= 3 { 2 + ref_escape_width(c) } else { want.len }) && sizes.len() == 0, "C13:scalar-width-is-printed-width");
+	kani::cover!(t == 2 && k == 7);
+	kani::cover!(t == 3 && c == '\u{1f}');
+	kani::cover!(t == 1);
+	core::mem::forget(v);
+	core::mem::forget(sizes);
+}
